@@ -39,7 +39,7 @@ _TRAD = {}
 
 def trad_space(tier):
     if tier not in _TRAD:
-        _TRAD[tier] = [c for c in pycodec.space(tier) if is_traditional(c)]
+        _TRAD[tier] = [c for c in pycodec.c_space(tier) if is_traditional(c)]
     return _TRAD[tier]
 
 
@@ -241,7 +241,7 @@ def main(pid, tier):
              "every storage byte of every non-bool leaf, backgrounds 0x00/0xFF) for encode, exhaustive wire sweep for decode; "
              "each input executed on the standard-mode executable and on four -O executables; non-trivial = input not all zero",
         exhaustive=True,
-        bound="traditional subset of SING(%s) u COMB(2) u TREE(%d); full sweeps for structs/buffers <= %d bytes" % (
+        bound="traditional subset of SING(%s) u COMB(2) u TREE(%d) u HOMONYMS; full sweeps for structs/buffers <= %d bytes" % (
             tier, 4 if tier == "quick" else 5, sweep_limit(tier)),
         go_part=dict(states=c["go_states"], evaluations=c["go_evaluations"],
                      note="Go -O Encode/Decode bodies interpreted by bpmc/gofront (typed evaluation) on EXH/BASIS values, a typed per-byte value sweep "
